@@ -120,6 +120,20 @@ def one_dataset(obs, rng, conv, spec):
             ds = ds.set_coords(bname)
         obs.cls('bathymetry-on-grid')
         obs.cls('bathymetry-on-non-default-grid' if kname != model.default_kind else 'bathymetry-on-default-grid')
+    # a multi-dimensional auxiliary coordinate that carries the depth dimension AND the horizontal ones (the depth of every
+    # layer centre in a terrain-following model, say; missing below the sea floor like the data): it is a variable with
+    # a depth dimension, and is reduced like one - it is not one of the (one-dimensional) coordinates OF the depth dimension
+    zaux = {}
+    if chance(rng, 0.3):
+        cands = [n for n, v in model.variables.items() if v.kind is not None and n in info['var_axis'] and v.dtype == 'float64'
+                 and n in ds.data_vars]
+        if cands:
+            src = pick(rng, cands)
+            zname = 'z_at_' + src
+            ds = ds.assign_coords({zname: (ds[src].dims, ds[src].values + 0.5, {'long_name': 'depth of the layer centre'})})
+            zaux[zname] = src
+            obs.cls('multi-dimensional-coordinate-with-depth-dimension')
+    model.depth_info['zaux'] = zaux
     spec['model'] = model.describe()
     spec['axes'] = [depthgen.axis_summary(a) for a in axes]
     obs.cls('conv:' + conv)
@@ -245,6 +259,24 @@ def check_floor(obs, model, ds, snap, before, out, chosen, route, ns, conv):
                        lambda: {'variable': name}, mech='other-variable-changed')
             if name in model.variables:
                 obs.cls('variable-without-depth-unchanged')
+            continue
+        if name in info.get('zaux', {}):
+            src = info['zaux'][name]
+            if info['var_axis'][src] not in [axes.index(a) for a in done_axes]:
+                continue
+            if not obs.expect(name in out.variables, 'multi-dimensional coordinate with a depth dimension lost by ocean_floor',
+                              lambda: {'coordinate': name, 'dims': sv['dims'], 'route': route}, mech='depth-variable-lost'):
+                continue
+            want_dims, want = depthgen.floor_oracle(model, src)
+            gotz = out[name]
+            if obs.expect(set(gotz.dims) == set(want_dims) and len(gotz.dims) == len(want_dims),
+                          'reduced multi-dimensional coordinate does not have exactly the non-depth dimensions',
+                          lambda: {'coordinate': name, 'got': gotz.dims, 'want': want_dims, 'route': route}, mech='multidim-depth-coordinate-broadcast'):
+                obs.expect(nan_equal(gotz.transpose(*want_dims).values, want + 0.5),
+                           'multi-dimensional coordinate: floor value is not the value of the deepest layer holding data',
+                           lambda: {'coordinate': name, 'got': gotz.transpose(*want_dims).values, 'want': want + 0.5, 'route': route},
+                           mech='floor-value')
+                obs.cls('multi-dimensional-coordinate-reduced')
             continue
         var = model.variables.get(name)
         if var is None or var.kind is None:
